@@ -3,12 +3,13 @@ CONTRACT_MODULES = ['contracts.keys_hd']
 CONTRACTS = ['bitcoinlib.keys.HDKey.child_private', 'bitcoinlib.keys.HDKey.child_public'] + [
     'bitcoinlib.keys.HDKey.subkey_for_path[path%d-%s-%s]' % (L, k, '_'.join(m or 'none' for m in ms))
     for L, k, ms in [(1, k, [m]) for m in ['', "'", 'h', 'H', 'p', 'P'] for k in ('priv', 'pub')] +
-                    [(2, 'priv', ['', '']), (2, 'priv', ["'", '']), (2, 'priv', ['', 'h'])]]
+                    [(2, 'priv', ['', '']), (2, 'priv', ["'", '']), (2, 'priv', ['', 'h'])]] + [
+    'bitcoinlib.keys.HDKey.subkey_for_path[path1-privM-%s]' % (m or 'none') for m in ['', "'", 'h', 'H', 'p', 'P']]
 LEVEL = 'proof'
 LEVEL_TEXT = ('HDKey.child_private and HDKey.child_public are verified against CKDpriv / CKDpub of the BIP32 text for every parent key, chain code, '
               'depth and every index in [0, 2^32): key material, chain code, depth, parent fingerprint and child number are the specified '
               'ones, indices >= 2^31 are hardened, invalid indices and hardened-from-public requests raise. HDKey.subkey_for_path is verified '
-              'for one path item of every marker spelling from a private and from a public parent (the loop body); two-item paths are only '
+              'for one path item of every marker spelling from a private and from a public parent, and for the public-master form M/<item> on a private key (the loop body); two-item paths are only '
               'evaluated natively (bounded). Three defects found this way were repaired (fix: commits).')
 LEVEL_NOTE = ('Uninterpreted / assumed: HMAC-SHA512, hash160, secp256k1 group operations (fastecdsa), the HDKey(...) constructor call at the end '
               'of the derivation functions (assumed to record its arguments; see C12/C04), change_base(10->16) via the hex() model. '
